@@ -43,10 +43,12 @@ func init() {
 		Require: func(string) map[string]int64 {
 			return map[string]int64{
 				"rel:P": 200, "rel:-P": 200, "rel:phiP": 200, "rel:phi2P": 200, "rel:O": 200, "rel:unrelated": 200,
-				"equal-expected": 200, "unequal-expected": 1000, "O-vs-O": 100, "same-pointer": 20, "scaled-vs-scaled-equal": 100, "rel:same-line": 100, "one-adjacent-pair": 200, "history-cases": 400,
+				"equal-expected": 200, "unequal-expected": 1000, "O-vs-O": 100, "same-pointer": 20, "scaled-vs-scaled-equal": 100, "rel:same-line": 100, "one-adjacent-pair": 200, "history-cases": 400, "serialised-before-compare": 300,
 			}
 		},
 	})
+
+	Registry["C05"].ColdStart = func(c *mon.Ctx) { c05RunConc(c, c.Seed*7919+uint64(c.Shard)+1) }
 }
 
 func c05Generate(c *mon.Ctx) {
@@ -194,6 +196,9 @@ func c05Generate(c *mon.Ctx) {
 
 		return &c05Case{A: a, B: b, Rel: q.Tag}
 	})
+
+	// and again at the end of the shard, when the process has a history behind it
+	concBatches(c, c.N(4, 200), func(seed uint64) any { return &c05Case{Conc: seed + 50000} })
 }
 
 func c05Run(c *mon.Ctx, csAny any) {
@@ -261,6 +266,13 @@ func c05Run(c *mon.Ctx, csAny any) {
 
 	if pa.IsInf() && pb.IsInf() {
 		c.Count("O-vs-O")
+	}
+
+	if cs.Move != nil || len(cs.A.R.L)%4 == 1 {
+		// the operands are serialised before they are compared: reading an element must not change what it equals
+		c.Count("serialised-before-compare")
+		_, _, _ = a.Encode(), a.EncodeUncompressed(), a.Hex()
+		_, _ = b.Encode(), b.EncodeUncompressed()
 	}
 
 	c.Eval(4)
